@@ -732,6 +732,77 @@ func runC02(c *Ctx) {
 		}
 	}
 
+	// ---- (c') COSE_Signature layers decoded on their own (a peer's encoding: wide protected head, scrambled
+	// map) attached to a locally built COSE_Sign body, signed and verified through the message-level API ----
+	for i := 0; i < c.N(300, 10000); i++ {
+		r := mon.NewRand(uint64(c.Seed)).Sub(uint64(6600000 + i))
+		n := 1 + i%3
+		ext := gen.External(r)
+		payload := gen.Payload(r, false)
+		bodyProt, iv := gen.GoHeader(r, gen.HeaderOpts{Protected: true, MaxEntries: 3}, false)
+		bodyUn, _ := gen.GoHeader(r, gen.HeaderOpts{MaxEntries: 2}, iv != 0)
+		m := &cose.SignMessage{Headers: cose.Headers{Protected: bodyProt, Unprotected: bodyUn}, Payload: payload}
+		var layers []gen.WLayer
+		ok := true
+		for j := 0; j < n; j++ {
+			a := int64(-7 - j)
+			l := gen.RandLayer(r, gen.LayerOpts{Alg: &a, MaxProt: 3, MaxUnprot: 1, ScramblePct: 60})
+			l.ProtWidth = gen.HeadWidths[(i+j)%5]
+			ws := &gen.WSignature{L: l, Sig: mon.FixedSig}
+			var sg cose.Signature
+			if sg.UnmarshalCBOR(ws.Bytes()) != nil {
+				ok = false
+				break
+			}
+			sg.Signature = nil
+			m.Signatures = append(m.Signatures, &sg)
+			layers = append(layers, l)
+		}
+		if !ok {
+			continue
+		}
+		input := map[string]any{"case": i, "family": "decoded signature layers on an in-memory body", "n": n, "external": ext}
+		spies := make([]*mon.SpySigner, n)
+		signers := make([]cose.Signer, n)
+		for j := range spies {
+			spies[j] = &mon.SpySigner{Alg: cose.Algorithm(-7 - j)}
+			signers[j] = spies[j]
+		}
+		var err error
+		if guard(rec, "SignMessage.Sign(decoded layers)", input, func() { err = m.Sign(gen.Entropy, ext, signers...) }) {
+			continue
+		}
+		rec.Eval(1)
+		rec.Event("decoded-layers-on-in-memory-body")
+		if err != nil {
+			continue
+		}
+		bc, e1 := refcose.ProtectedContent(bodyProt, gen.Custom)
+		if e1 != nil {
+			continue
+		}
+		vs := make([]cose.Verifier, n)
+		vspies := make([]*mon.SpyVerifier, n)
+		for j := 0; j < n; j++ {
+			want := refcose.SignatureStructure(bc, layers[j].Content(), ext, payload)
+			cls := fmt.Sprintf("sign/sign/decoded-layer-on-in-memory-body/pos=%d/signw=%d", j, layers[j].ProtWidth)
+			rec.Class(cls)
+			if spies[j].Calls != 1 || !eqBytes(spies[j].Last(), want) {
+				rec.Violate("tbs-mismatch", cls, fmt.Sprintf("signer %d (calls=%d) got %s\nreference %s", j, spies[j].Calls, hexs(spies[j].Last()), hexs(want)), input)
+			}
+			vspies[j] = &mon.SpyVerifier{Alg: cose.Algorithm(-7 - j)}
+			vs[j] = vspies[j]
+		}
+		if guard(rec, "SignMessage.Verify(decoded layers)", input, func() { err = m.Verify(ext, vs...) }) {
+			continue
+		}
+		for j := 0; j < n && err == nil; j++ {
+			want := refcose.SignatureStructure(bc, layers[j].Content(), ext, payload)
+			if vspies[j].Calls != 1 || !eqBytes(vspies[j].Last(), want) {
+				rec.Violate("tbs-mismatch", fmt.Sprintf("sign/verify/decoded-layer-on-in-memory-body/pos=%d", j), fmt.Sprintf("verifier %d got %s\nreference %s", j, hexs(vspies[j].Last()), hexs(want)), input)
+			}
+		}
+	}
 	// ---- (e') hash envelopes as a peer writes them, through VerifyHashEnvelope with a spy verifier ----
 	for i := 0; i < c.N(400, 20000); i++ {
 		r := mon.NewRand(uint64(c.Seed)).Sub(uint64(6500000 + i))
